@@ -2,7 +2,7 @@
     Model: Model/C14_Pheno.v (mirrors G_E_Phenotyping.phenotype/set_h2/set_H2, TruePhenotyping.phenotype,
     MeanPhenotypicBreedingValue.estimate, TrueBreedingValue.estimate). *)
 From Coq Require Import String Permutation Sorted Lqa.
-From PV Require Import Lib.Common Model.C14_Pheno Proofs.C14_Pheno Model.C14_Session Proofs.C14_Session Gen.C14_Kernel Proofs.C14_Kernel Model.C14_Alias Proofs.C14_Alias.
+From PV Require Import Lib.Common Model.C14_Pheno Proofs.C14_Pheno Model.C14_Session Proofs.C14_Session Gen.C14_Kernel Proofs.C14_Kernel Model.C14_Alias Proofs.C14_Alias Model.C14_Herit Proofs.C14_Herit.
 Local Open Scope Q_scope.
 
 (** A simulated trial returns exactly one record per taxon, environment and replicate, each carrying that taxon's
@@ -558,4 +558,88 @@ Proof.
   split; [repeat constructor|].
   split; [eexists; vm_compute; reflexivity|].
   split; [eexists; split; [vm_compute; reflexivity | reflexivity]|]. repeat constructor; cbn; lra.
+Qed.
+
+(** * Heritability over the family of genomic models (Model/C14_Herit.v)
+    The protocols accept every GenomicModel: DenseAdditiveLinearGenomicModel (and rrBLUPModel0, which inherits its values),
+    and DenseAdditiveDominanceLinearGenomicModel, whose genotypic values run over the design [A | D] (D = heterozygosity
+    indicators) with the coefficients [u_a ; u_d] while its breeding values stay A @ u_a.  set_h2 reads var_A, set_H2 reads var_G. *)
+
+(** Whichever variance a setter reads and whatever the model class: the error variance written is (1-h)/h times THAT variance,
+    trait by trait, non-negative, and calibrates it to the target. *)
+Theorem C14_heritability_over_model_family : forall broad t h ploidy dos g ve, set_her broad t h ploidy dos g = Some ve ->
+  forall j hj vj, nth_error (h2_vec t h) j = Some hj -> nth_error (gm_var broad t ploidy dos g) j = Some vj ->
+    exists e, nth_error ve j = Some e /\ 0 <= e /\ e == (1 - hj) / hj * vj /\ (0 < vj -> 0 < hj -> hj <= 1 -> heritability vj e == hj).
+Proof. exact set_her_calibrated. Qed.
+Print Assumptions C14_heritability_over_model_family.
+
+(** Broad-sense calibration with the dominance design: after set_H2 on an additive + dominance model, var_G / (var_G + var_err) = H2
+    where var_G is the population variance of [A | D] @ [u_a ; u_d] -- for every ploidy, population and pair of effect matrices. *)
+Theorem C14_broad_sense_calibration_dominance : forall t h ploidy dos ua ud ve, ge_set_H2 t h ploidy dos (GAddDom ua ud) = Some ve ->
+  forall j hj vj, nth_error (h2_vec t h) j = Some hj ->
+    nth_error (var_cols t (gebv_raw t (map2 (@app Z) dos (map (map (het ploidy)) dos)) (ua ++ ud))) j = Some vj ->
+    exists e, nth_error ve j = Some e /\ 0 <= e /\ e == (1 - hj) / hj * vj /\ (0 < vj -> 0 < hj -> hj <= 1 -> vj / (vj + e) == hj).
+Proof. exact ge_set_H2_dominance_calibrated. Qed.
+Print Assumptions C14_broad_sense_calibration_dominance.
+
+(** Narrow-sense calibration for every model class: after set_h2, var_A / (var_A + var_err) = h2 with var_A the population variance
+    of the breeding values A @ u_a (the dominance effects play no part). *)
+Theorem C14_narrow_sense_calibration : forall t h ploidy dos g ve, ge_set_h2 t h ploidy dos g = Some ve ->
+  forall j hj vj, nth_error (h2_vec t h) j = Some hj -> nth_error (var_cols t (gebv_raw t dos (gm_u_a g))) j = Some vj ->
+    exists e, nth_error ve j = Some e /\ 0 <= e /\ e == (1 - hj) / hj * vj /\ (0 < vj -> 0 < hj -> hj <= 1 -> vj / (vj + e) == hj).
+Proof. exact ge_set_h2_narrow_calibrated. Qed.
+Print Assumptions C14_narrow_sense_calibration.
+
+Theorem C14_heritability_setters_accept : forall broad t h ploidy dos g,
+  Forall (fun x => 0 < x /\ x <= 1) (h2_vec t h) -> exists ve, set_her broad t h ploidy dos g = Some ve.
+Proof. exact set_her_accepts. Qed.
+Print Assumptions C14_heritability_setters_accept.
+
+(** For the additive classes both setters write the same error variance. *)
+Theorem C14_additive_broad_is_narrow : forall t h ploidy dos u, set_her true t h ploidy dos (GAdd u) = set_her false t h ploidy dos (GAdd u).
+Proof. exact additive_broad_is_narrow. Qed.
+Print Assumptions C14_additive_broad_is_narrow.
+
+(** A set_H2 that derives the error variance from var_A (the seeded regression) is refuted by a dominance model on a population
+    with a heterozygous taxon: genetic variance 8/9, error variance 2/3, ratio 4/7 instead of the target 1/2; the modelled
+    set_H2 meets the target on the same input. *)
+Theorem C14_H2_from_var_A_refuted :
+  let dos := [[1%Z]; [0%Z]; [2%Z]] in let g := GAddDom [[1]] [[1]] in let h := HScalar (1 # 2) in
+  exists ve ve' vG, bad_set_H2 1 h 2 dos g = Some [ve] /\ ge_set_H2 1 h 2 dos g = Some [ve'] /\ gm_var true 1 2 dos g = [vG] /\
+    0 < vG /\ ~ heritability vG ve == 1 # 2 /\ heritability vG ve' == 1 # 2.
+Proof. exact bad_set_H2_refuted. Qed.
+Print Assumptions C14_H2_from_var_A_refuted.
+
+(** The source's setters read the variances the model says (regenerated on every run: var_A = self.gpmod.var_A(pgmat) in set_h2,
+    var_G = self.gpmod.var_G(pgmat) in set_H2), and the calibration statements hold for the generated constants and formulas. *)
+Theorem C14_kernel_heritability_sources : k_h2_broad = false /\ k_H2_broad = true.
+Proof. exact (conj k_h2_broad_model k_H2_broad_model). Qed.
+Print Assumptions C14_kernel_heritability_sources.
+
+Theorem C14_kernel_broad_sense_calibration_dominance : forall t h ploidy dos ua ud ve, set_her k_H2_broad t h ploidy dos (GAddDom ua ud) = Some ve ->
+  forall j hj vj, nth_error (h2_vec t h) j = Some hj ->
+    nth_error (var_cols t (gebv_raw t (map2 (@app Z) dos (map (map (het ploidy)) dos)) (ua ++ ud))) j = Some vj ->
+    exists e, nth_error ve j = Some e /\ e == k_H2_err hj vj /\ (0 < vj -> 0 < hj -> hj <= 1 -> vj / (vj + e) == hj).
+Proof. exact kernel_set_H2_dominance_calibrated. Qed.
+Print Assumptions C14_kernel_broad_sense_calibration_dominance.
+
+Theorem C14_kernel_narrow_sense_calibration : forall t h ploidy dos g ve, set_her k_h2_broad t h ploidy dos g = Some ve ->
+  forall j hj vj, nth_error (h2_vec t h) j = Some hj -> nth_error (var_cols t (gebv_raw t dos (gm_u_a g))) j = Some vj ->
+    exists e, nth_error ve j = Some e /\ e == k_h2_err hj vj /\ (0 < vj -> 0 < hj -> hj <= 1 -> vj / (vj + e) == hj).
+Proof. exact kernel_set_h2_narrow_calibrated. Qed.
+Print Assumptions C14_kernel_narrow_sense_calibration.
+
+(** non-vacuity: a 3-taxon diploid population with a heterozygous taxon, one locus, two traits, an additive + dominance model:
+    set_H2 with per-trait targets (1/2, 1) is accepted, both genetic variances are positive, and they differ from the additive ones *)
+Example C14_herit_hyps_satisfiable :
+  let dos := [[1%Z]; [0%Z]; [2%Z]] in let g := GAddDom [[1; 2]] [[1; -1]] in let h := HArr [1 # 2; 1] in
+  (exists ve, ge_set_H2 2 h 2 dos g = Some ve) /\ (exists ve, ge_set_h2 2 h 2 dos g = Some ve)
+  /\ (exists v0 v1, gm_var true 2 2 dos g = [v0; v1] /\ 0 < v0 /\ 0 < v1)
+  /\ (exists a0 a1 v0 v1, gm_var false 2 2 dos g = [a0; a1] /\ gm_var true 2 2 dos g = [v0; v1] /\ ~ a0 == v0 /\ ~ a1 == v1)
+  /\ Forall (fun x => 0 < x /\ x <= 1) (h2_vec 2 h).
+Proof.
+  cbv zeta. split; [eexists; vm_compute; reflexivity|]. split; [eexists; vm_compute; reflexivity|].
+  split; [eexists; eexists; split; [vm_compute; reflexivity | split; reflexivity]|].
+  split; [do 4 eexists; split; [vm_compute; reflexivity | split; [vm_compute; reflexivity | split; intro E; vm_compute in E; discriminate E]]|].
+  repeat constructor; cbn; lra.
 Qed.
